@@ -332,6 +332,9 @@ def run_check(pid, tier, seed):
       'violations': n_unlisted,
   }
   evpath = os.path.join(ROOT, 'evidence', pid + '.json')
+  if os.environ.get('VERIF_REPO') or os.environ.get('VERIF_NO_EVIDENCE'):
+    # runs against a scratch/mutated tree never touch the committed evidence
+    evpath = os.path.join(ROOT, '.cache', 'scratch_evidence', pid + '.json')
   os.makedirs(os.path.dirname(evpath), exist_ok=True)
   with open(evpath, 'w') as f:
     json.dump(ev, f, indent=1, sort_keys=True, default=str)
